@@ -9,6 +9,7 @@ class CallGraph:
         self.ext = {}      # caller key -> set(external callee path)
         self.sites = {}    # caller key -> list of (block, term, callee key or path)
         self.inn = {}
+        self.refs = {}     # caller key -> list of (block, local callee key) for every kind of edge
         funcs = facts.funcs
         # trait method decl -> local impl bodies (for unresolved / virtual calls)
         self.trait_impls = {}
@@ -20,6 +21,7 @@ class CallGraph:
         # generic keys: several monomorphic callee paths print identically to the body key
         for k, f in funcs.items():
             o = self.out.setdefault(k, set())
+            rf = self.refs.setdefault(k, [])
             e = self.ext.setdefault(k, set())
             sl = self.sites.setdefault(k, [])
             for bi, t in f.calls(include_cleanup=False):
@@ -29,17 +31,19 @@ class CallGraph:
                 c = t["callee"]
                 if c in funcs:
                     o.add(c)
+                    rf.append((bi, c))
                     sl.append((bi, t, c))
                 else:
                     hit = False
                     if t.get("inst_kind") in ("unresolved", "Virtual"):
                         for ik in self.trait_impls.get(t["decl"], []):
                             o.add(ik)
+                            rf.append((bi, ik))
                             hit = True
                     e.add(c)
                     sl.append((bi, t, c))
             # closures and fn items mentioned in the body are treated as potentially invoked
-            for b in f.blocks:
+            for bi, b in enumerate(f.blocks):
                 if b["cleanup"]:
                     continue
                 for st in b["stmts"]:
@@ -48,19 +52,29 @@ class CallGraph:
                     rv = st["rv"]
                     if rv["k"] == "agg" and rv["ak"] == "closure" and rv["closure"] in funcs:
                         o.add(rv["closure"])
+                        rf.append((bi, rv["closure"]))
                     for op in _operands_of_rv(rv):
                         if op["k"] == "const" and "fn" in op and op["fn"] in funcs:
                             o.add(op["fn"])
+                            rf.append((bi, op["fn"]))
                 t = b["term"]
                 if t["k"] == "call":
                     for a in t["args"]:
                         if a["k"] == "const" and "fn" in a and a["fn"] in funcs:
                             o.add(a["fn"])
+                            rf.append((bi, a["fn"]))
+                        # zero-sized closures are passed as constants of closure type
+                        if a["k"] == "const" and a.get("ty", "") in _closure_ty_index(funcs):
+                            ck = _closure_ty_index(funcs)[a["ty"]]
+                            o.add(ck)
+                            rf.append((bi, ck))
             for l in f.locals:
                 c = l.get("closure")
                 if c and c in funcs and c != k and funcs[c].root == (f.root or k):
                     # closure-typed local: only link closures defined directly in this body
                     if funcs[c].parent == k:
+                        if c not in o:
+                            rf.append((0, c))
                         o.add(c)
         for k, cs in self.out.items():
             for c in cs:
@@ -113,6 +127,18 @@ class CallGraph:
                     has[k] = True
                     changed = True
         return has
+
+
+_CTI = {}
+
+
+def _closure_ty_index(funcs):
+    """type string of a capture-less closure -> its key (they appear as ZST constants)"""
+    i = id(funcs)
+    if i not in _CTI:
+        _CTI.clear()
+        _CTI[i] = {}
+    return _CTI[i]
 
 
 def _operands_of_rv(rv):
